@@ -76,13 +76,11 @@ HalfVerdict(c, r, half) ==
          THEN "known:lone-sign-symbol-unreadable"
     ELSE IF half = "ev" /\ DevOn("hash-string-key-printed-raw") /\ HasRawKey(c.cc, v)
          THEN "known:hash-string-key-printed-raw"
-    ELSE IF ~IsErr(r) /\ Same(v, r, half, D) THEN
-         IF DevOn("float-prints-without-fraction") /\ HasPlainFloat(v) /\ ~Same(v, r, half, {})
-            /\ (half = "ev" \/ ~(HasNil(v) \/ HasWideChar(v)))
-         THEN "known:float-prints-without-fraction"
-         ELSE IF half = "rd" /\ DevOn("nil-reads-as-symbol") /\ HasNil(v) THEN "known:nil-reads-as-symbol"
-         ELSE IF DevOn("char-literal-first-byte") /\ HasWideChar(v) THEN "known:char-literal-first-byte"
-         ELSE "known:float-prints-without-fraction"
+    ELSE IF ~IsErr(r) /\ Same(v, r, half, D) THEN      \* name a deviation the explanation cannot do without
+         LET Needs(id) == id \in D /\ ~Same(v, r, half, D \ {id}) IN
+         IF Needs("float-prints-without-fraction") THEN "known:float-prints-without-fraction"
+         ELSE IF Needs("nil-reads-as-symbol") THEN "known:nil-reads-as-symbol"
+         ELSE "known:char-literal-first-byte"
     ELSE "bad"
 
 PrVerdict(c) ==
